@@ -460,3 +460,33 @@ def confinement_programs(seed, n):
         lines.append('[r1, r2]' if r.random() < 0.3 else 'None')
         out.append({'names': [names], 'host': {}, 'calls': [{'src': '\n'.join(lines), 'n': 0, 'max': 600}]})
     return out
+
+
+def repo_test_evals():
+    """Every eval call the repository's own tests make (source, names, budget), recorded by running the
+    suite on a scratch copy with SqParser.eval wrapped; returned as scenarios for the tracer."""
+    import os
+    import pickle
+    import shutil
+    import subprocess
+    from . import common
+    snap = common.snapshot_repo()
+    tdir = os.path.join(common.scratch_dir('repotests'), 'tests')
+    if not os.path.exists(tdir):
+        shutil.copytree(os.path.join(common.REPO, 'tests'), tdir, ignore=shutil.ignore_patterns('__pycache__'))
+    out = os.path.join(common.scratch_dir('repotests'), 'calls.pkl')
+    env = dict(os.environ, PYTHONPATH=snap + os.pathsep + os.path.dirname(tdir))
+    subprocess.run(['/venv/bin/python', os.path.join(common.VERIF, 'harness', 'record_tests.py'), snap, tdir, out],
+                   cwd=os.path.dirname(tdir), env=env, stdout=subprocess.PIPE, stderr=subprocess.STDOUT, timeout=600)
+    if not os.path.exists(out):
+        return []
+    data = pickle.load(open(out, 'rb'))
+    scns = []
+    for c in data['calls']:
+        if c['ast'] or c['names'] == 'unpicklable':
+            continue
+        names = c['names'] if isinstance(c['names'], dict) else {}
+        if any(callable(v) for v in names.values()):
+            continue        # host Python functions of the tests are outside the specification
+        scns.append({'names': [names], 'host': {}, 'calls': [{'src': c['src'], 'n': 0, 'max': c['max']}]})
+    return scns
